@@ -195,7 +195,7 @@ impl Scenario for C05 {
     fn runs(&self, tier: Tier) -> u64 {
         match tier {
             Tier::Quick => 6_000,
-            Tier::Thorough => 400_000,
+            Tier::Thorough => 60_000,
         }
     }
     fn generate(&self, rng: &mut Rng, tier: Tier) -> (Cfg, Vec<Act>) {
@@ -224,7 +224,8 @@ impl Scenario for C05 {
         let p_keep = rng.below(4);
         let p_drop = rng.below(3);
         let p_dup_a = rng.below(3);
-        let check_every = *rng.pick(&[1usize, 8, 32, 128, 512]);
+        // a deep check costs O(k): keep its frequency in proportion
+        let check_every = (*rng.pick(&[1usize, 8, 32, 128, 512])).max(k / 32);
         let mut acts = vec![];
         for (i, &rc) in rcs.iter().enumerate() {
             if hashed {
